@@ -125,10 +125,12 @@ def write_csv_folder(wb, d):
             f.write(py_csv_write([h] + rows))
 
 
-def write_xlsx(wb, path, stray=None):
+def write_xlsx(wb, path, stray=None, sparse=False):
     """stray: {sheet: (row_index, extra_columns)} -- explicit empty string cells to the right of
     the table (a column without header): the same content, but openpyxl then reports a wider
-    grid whose last headers are None"""
+    grid whose last headers are None.
+    sparse: a cell without text is not written at all (what a spreadsheet application saves for a cell nobody touched;
+    a row without content is then absent from the file) instead of as an empty string cell"""
     import openpyxl
 
     b = openpyxl.Workbook()
@@ -138,6 +140,8 @@ def write_xlsx(wb, path, stray=None):
         ws = b.create_sheet(title=name)
         for i, r in enumerate([h] + rows):
             for j, val in enumerate(r):
+                if sparse and val == "" and i > 0:
+                    continue
                 c = ws.cell(row=i + 1, column=j + 1)
                 c.value = val
                 c.data_type = "s"      # a string cell, whatever the text looks like
@@ -190,10 +194,11 @@ def convert_format_book(wb):
     return {"meta": {"version": "0.1.0"}, "sheets": out}
 
 
-def read_all_formats(wb, scratch, stray=None, reuse=None):
+def read_all_formats(wb, scratch, stray=None, reuse=None, sparse=False):
     """Write wb in the three formats, read with the three real readers.
     Returns dict fmt -> ('ok', {name: (headers, rows)}) | ('err', kind, msg), plus details.
-    reuse: a directory an earlier call wrote (its "dir"): the files are overwritten in place, the paths stay the same."""
+    reuse: a directory an earlier call wrote (its "dir"): the files are overwritten in place, the paths stay the same.
+    sparse: see write_xlsx"""
     from rpft import converters
     from rpft.parsers import sheets
 
@@ -201,7 +206,7 @@ def read_all_formats(wb, scratch, stray=None, reuse=None):
     csv_dir = os.path.join(d, "csv")
     write_csv_folder(wb, csv_dir)
     xlsx = os.path.join(d, "wb.xlsx")
-    write_xlsx(wb, xlsx, stray)
+    write_xlsx(wb, xlsx, stray, sparse)
     out = {}
     det = {"dir": d, "csv_dir": csv_dir, "xlsx": xlsx}
 
@@ -285,6 +290,47 @@ def compile_oracle(res):
         return len(kinds) == 1          # every format fails, and with the same kind
     ref = res["csv"][1]
     return all(r[1] == ref for r in res.values())
+
+
+def correspond_workbook(ctx, m, wb, res, det, stray=None):
+    """model readers vs real readers, per sheet, on the files read_all_formats wrote (m: the extracted model)"""
+    grid = load_grid(det["xlsx"])
+    for name, (h, rows) in wb.items():
+        text = open(os.path.join(det["csv_dir"], name + ".csv"), "rb").read().decode("utf-8")
+        mo = dec_res(m.ask(f"(114 11 {enc_str(text)})"), dec_table)
+        im = ("ok", res["csv"][1][name]) if res["csv"][0] == "ok" else ("err",)
+        if (mo if mo[0] == "ok" else ("err",)) != im:
+            ctx.disagree("CSVSheetReader sheet", repr((name, h, rows)), repr(mo), repr(res["csv"]))
+        # library hypothesis (section hypothesis xl_roundtrip): what openpyxl hands back
+        g = grid.get(name)
+        extra = stray[name][1] if stray and name in stray else 0
+        want = [[(unl(c) if c != "" else None) for c in r] + [None] * extra for r in [h] + rows]
+        if g != want:
+            ctx.disagree("openpyxl string-cell round trip (section hypothesis)", repr((name, h, rows)), repr(want), repr(g))
+        if g is not None and all(c is None or isinstance(c, str) for r in g for c in r):
+            mx = dec_res(m.ask(f"(114 6 {enc_grid(g)})"), dec_xtable)
+            ix = ("ok", res["xlsx"][1][name]) if res["xlsx"][0] == "ok" else ("err",)
+            if (mx if mx[0] == "ok" else ("err",)) != ix:
+                ctx.disagree("XLSXSheetReader sheet", repr((name, h, rows)), repr(mx), repr(res["xlsx"]))
+        # to_json: the JSON text parsed back must be to_dicts of the table the CSV reader produced
+        if res["csv"][0] == "ok" and "json_text" in det:
+            ch_, cr_ = res["csv"][1][name]
+            parsed = json.loads(det["json_text"])  # section hypothesis json_roundtrip: checked below
+            content = parsed["sheets"][name]
+            mj = dec_jsheet(m.ask(f"(114 12 {enc_table(ch_, cr_)})"))
+            ij = jsheet_view(content)
+            if mj != ij:
+                ctx.disagree("convert (to_json) sheet", repr((name, h, rows)), repr(mj), repr(ij))
+            if res["json"][0] == "ok":
+                mf = dec_res(m.ask(f"(114 13 {enc_jsheet(content)})"), dec_table)
+                if mf != ("ok", res["json"][1][name]):
+                    ctx.disagree("JSONSheetReader sheet", repr((name, h, rows)), repr(mf), repr(res["json"][1][name]))
+        if res["json_direct"][0] == "ok" and "json_direct_book" in det:
+            content = det["json_direct_book"]["sheets"][name]
+            mf = dec_res(m.ask(f"(114 13 {enc_jsheet(content)})"), dec_table)
+            if mf != ("ok", res["json_direct"][1][name]):
+                ctx.disagree("JSONSheetReader sheet (workbook held in convert's format)", repr((name, h, rows)), repr(mf),
+                             repr(res["json_direct"][1][name]))
 
 
 # ------------------------------------------------------------------ workbook classes
@@ -648,11 +694,53 @@ def _run(ctx, v, rng, m, thorough, scratch):
             ww = w if rng.random() < 0.9 else rng.choice([max(1, w - 1), w + 1])
             g.append([rng.choice([None, None, "", "x", " ", "0", "é\n,", rand_cell(rng)]) for _ in range(ww)])
         grids.append(g)
+    # How `_sanitize` can be driven on this tree: directly on a tablib Dataset (what XLSXSheetReader.__init__ hands it on /repo) or,
+    # when the private helper takes something else (a reader re-organised without a change of behaviour), through
+    # XLSXSheetReader on a written file — the model is then asked about the grid AS openpyxl REPORTS IT for that file.
+    def probe_direct():
+        ds = tablib.Dataset()
+        ds.headers = ["a"]
+        ds.append(["x"])
+        return table_view(xr._sanitize(ds))
+
+    pr = run_cli_mode(probe_direct)
+    direct = pr[0] == "ok" and pr[1] == (["a"], [["x"]])
+    san_dist["driver"] = "direct: _sanitize on a Dataset" if direct else \
+        "file: XLSXSheetReader on a written XLSX (_sanitize does not take a Dataset on this tree: %r)" % (pr[1:],)
+    file_reads = {}
+    if not direct:
+        import openpyxl
+        grids = [g for g in grids[:10] if g] + grids[10:10 + (1500 if thorough else 250) * ctx.scale]   # (each grid costs a file)
+        sdir = os.path.join(scratch, "sanitize_files")
+        os.makedirs(sdir, exist_ok=True)
+        eff = []
+        for k, g in enumerate(grids):
+            b = openpyxl.Workbook()
+            ws = b.active
+            ws.title = "s"
+            for i, row in enumerate(g):
+                for j, val in enumerate(row):
+                    if val is not None:
+                        c = ws.cell(row=i + 1, column=j + 1)
+                        c.value = val
+                        c.data_type = "s"
+            pth = os.path.join(sdir, f"g{k}.xlsx")
+            b.save(pth)
+            g2 = load_grid(pth).get("s") or []
+            file_reads[k] = run_cli_mode(lambda: table_view(sheets.XLSXSheetReader(pth).sheets["s"].table))
+            os.unlink(pth)
+            eff.append(g2)
+        grids = eff
     outs = m.ask_many([f"(114 6 {enc_grid(g)})" for g in grids]) if m else None
     for i, g in enumerate(grids):
         v.coverage["evaluations"] += 1
 
         def impl_sanitize():
+            if not direct:
+                r0 = file_reads[i]
+                if r0[0] != "ok":
+                    raise RuntimeError(r0[1:])
+                return r0[1]
             ds = tablib.Dataset()
             # XLSXFormat.import_sheet, on the cell values
             for k, row_vals in enumerate(g):
@@ -668,7 +756,13 @@ def _run(ctx, v, rng, m, thorough, scratch):
         r = run_cli_mode(impl_sanitize)
         im = ("ok", r[1]) if r[0] == "ok" else ("err",)
         san_dist["ok" if r[0] == "ok" else "err"] += 1
-        if r[0] == "ok":
+        if r[0] == "ok" and not direct:
+            if len(r[1][1]) < len(g) - 1:
+                san_dist["dropped_row_cases"] += 1
+                nontrivial.add("san" + repr(g))
+            if g and g[0] and g[0][-1] is None:
+                san_dist["trailing_none_headers"] += 1
+        if r[0] == "ok" and direct:
             # theorem sanitize_idempotent on the real function
             def impl_again():
                 ds = tablib.Dataset()
@@ -908,43 +1002,7 @@ def _run(ctx, v, rng, m, thorough, scratch):
         nontrivial.add("wb%d" % k)
         # ---- correspondence: model readers vs real readers, per sheet
         if m:
-            grid = load_grid(det["xlsx"])
-            for name, (h, rows) in wb.items():
-                text = open(os.path.join(det["csv_dir"], name + ".csv"), "rb").read().decode("utf-8")
-                mo = dec_res(m.ask(f"(114 11 {enc_str(text)})"), dec_table)
-                im = ("ok", res["csv"][1][name]) if res["csv"][0] == "ok" else ("err",)
-                if (mo if mo[0] == "ok" else ("err",)) != im:
-                    ctx.disagree("CSVSheetReader sheet", repr((name, h, rows)), repr(mo), repr(res["csv"]))
-                # library hypothesis (section hypothesis xl_roundtrip): what openpyxl hands back
-                g = grid.get(name)
-                extra = stray[name][1] if stray and name in stray else 0
-                want = [[(unl(c) if c != "" else None) for c in r] + [None] * extra for r in [h] + rows]
-                if g != want:
-                    ctx.disagree("openpyxl string-cell round trip (section hypothesis)", repr((name, h, rows)), repr(want), repr(g))
-                if g is not None and all(c is None or isinstance(c, str) for r in g for c in r):
-                    mx = dec_res(m.ask(f"(114 6 {enc_grid(g)})"), dec_xtable)
-                    ix = ("ok", res["xlsx"][1][name]) if res["xlsx"][0] == "ok" else ("err",)
-                    if (mx if mx[0] == "ok" else ("err",)) != ix:
-                        ctx.disagree("XLSXSheetReader sheet", repr((name, h, rows)), repr(mx), repr(res["xlsx"]))
-                # to_json: the JSON text parsed back must be to_dicts of the table the CSV reader produced
-                if res["csv"][0] == "ok" and "json_text" in det:
-                    ch_, cr_ = res["csv"][1][name]
-                    parsed = json.loads(det["json_text"])  # section hypothesis json_roundtrip: checked below
-                    content = parsed["sheets"][name]
-                    mj = dec_jsheet(m.ask(f"(114 12 {enc_table(ch_, cr_)})"))
-                    ij = jsheet_view(content)
-                    if mj != ij:
-                        ctx.disagree("convert (to_json) sheet", repr((name, h, rows)), repr(mj), repr(ij))
-                    if res["json"][0] == "ok":
-                        mf = dec_res(m.ask(f"(114 13 {enc_jsheet(content)})"), dec_table)
-                        if mf != ("ok", res["json"][1][name]):
-                            ctx.disagree("JSONSheetReader sheet", repr((name, h, rows)), repr(mf), repr(res["json"][1][name]))
-                if res["json_direct"][0] == "ok" and "json_direct_book" in det:
-                    content = det["json_direct_book"]["sheets"][name]
-                    mf = dec_res(m.ask(f"(114 13 {enc_jsheet(content)})"), dec_table)
-                    if mf != ("ok", res["json_direct"][1][name]):
-                        ctx.disagree("JSONSheetReader sheet (workbook held in convert's format)", repr((name, h, rows)), repr(mf),
-                                     repr(res["json_direct"][1][name]))
+            correspond_workbook(ctx, m, wb, res, det, stray)
         # ---- the property's oracle on the implementation
         # (class 'cr': the CSV and XLSX readers newline-normalise a CR, so "cells intact" is not asked;
         #  the three formats must still agree with each other and all succeed: theorem formats_agree_normalised)
@@ -997,6 +1055,11 @@ def _run(ctx, v, rng, m, thorough, scratch):
         shutil.rmtree(det["dir"], ignore_errors=True)
     stats["reader_workbooks"] = wb_dist
     stats["reader_findings_seen"] = n_fail
+
+    # ============================================================ (b1s) sheet SHAPES: long runs of rows / columns without content,
+    # very long / very wide sheets, content far from the origin, many sheets (harness/c14_shapes.py)
+    import c14_shapes
+    shape_samples = c14_shapes.run_shapes(ctx, scratch, nontrivial)
 
     # ============================================================ (b2) create_flows on the three formats, convert-then-compile
     n_c = (1500 if thorough else 150) * ctx.scale
@@ -1067,11 +1130,17 @@ def _run(ctx, v, rng, m, thorough, scratch):
         "{headers, rows} incl. ragged rows, as lists of lists, re-ordered); then whole workbooks through the three real readers "
         "and through JSONSheetReader on the workbook held in convert's own format (70%% in the theorem's "
         "domain, 10%% CR cells [correspondence + mutual agreement of the formats], 10%% all-empty rows, 10%% header-only sheets) and small valid rpft "
-        "workbooks through create_flows in all formats (80%% valid, 20%% carrying one of the two defect features). "
+        "workbooks through create_flows in all formats (80%% valid, 20%% carrying one of the two defect features); SHAPES: "
+        "workbooks drawn by shape — blocks of content separated by runs of rows without content (run lengths 1 .. 2100, "
+        "clustered around 10, 100, 256, 500, 512, 1000, 1024, 1200, 2048), content far below the header / far right, trailing "
+        "runs, columns without content (up to 300 columns), 1000-3000 content rows, 100-400 columns, 12-64 sheets, mixtures, "
+        "valid rpft workbooks with such runs inside the flow / index / data sheets (also compiled) — XLSX cells without text "
+        "written as empty strings or not at all, all formats compared with each other, with the workbook minus its rows "
+        "without content, and with the model readers (distribution: stats.sheet_shapes). "
         "non-trivial = distinct text with a quote or CR / rows with a cell needing quotes / grid where a row was dropped / "
-        "workbook read / workbook compiled") % (maxlen, "".join(alpha), small)
+        "workbook read / workbook compiled / shape workbook") % (maxlen, "".join(alpha), small)
     v.coverage["samples"] = [texts[min(len(texts) - 1, 5000)], cases[min(len(cases) - 1, 1800)], file_cases[0][:200],
-                             grids[min(len(grids) - 1, 40)], {n: t for n, t in list(rand_workbook(rng, "domain").items())[:1]}]
+                             grids[min(len(grids) - 1, 40)], {n: t for n, t in list(rand_workbook(rng, "domain").items())[:1]}] + shape_samples
     v.assumptions += [
         "UTF-8 file encoding/decoding is the identity on code-point strings (not modelled)",
         "openpyxl returns for a string cell: None for '', the text with CR/CRLF turned into LF otherwise (section hypothesis xl_roundtrip; checked on every generated workbook of this run, cells <= 32767 chars, no XML-illegal control characters)",
@@ -1119,9 +1188,12 @@ def cli_oracle(wb, scratch, v):
 
 def replay(rep):
     r = rep["replay"]
-    wb = {n: (list(t[0]), [list(x) for x in t[1]]) for n, t in r["wb"].items()}
     scratch = tempfile.mkdtemp(prefix="c14r_")
     try:
+        if r["fn"] == "shape":
+            import c14_shapes
+            return c14_shapes.replay_shape(r, scratch)
+        wb = {n: (list(t[0]), [list(x) for x in t[1]]) for n, t in r["wb"].items()}
         if r["fn"] == "readers":
             stray = {n: tuple(x) for n, x in r["stray"].items()} if r.get("stray") else None
             res, det = read_all_formats(wb, scratch, stray)
